@@ -307,8 +307,18 @@ fn gen_case(seed: u64, i: u64) -> Case {
     if r.chance(1, 5) {
         cfg.targets.clear();
     }
+    // CRLF line ends now and then (the binary must pass them through like the library does)
+    let text = match r.below(12) {
+        0 => rd.text.replace('\n', "\r\n"),
+        1 => {
+            // mixed line endings
+            let mut k = 0;
+            rd.text.split('\n').collect::<Vec<_>>().join("\u{1}").chars().map(|c| if c == '\u{1}' { k += 1; if k % 2 == 0 { "\r\n".to_string() } else { "\n".to_string() } } else { c.to_string() }).collect()
+        }
+        _ => rd.text,
+    };
     Case {
-        text: rd.text,
+        text,
         sp,
         cfg,
         default_spelling,
